@@ -25,7 +25,7 @@ try:
     return r.returncode, r.stdout[-400:]
   rc0, o0 = run_demo()
   out['demo_without_change'] = 'pass' if rc0 == 0 else 'FAIL rc=%d: %s' % (rc0, o0)
-  r = subprocess.run(['patch', '-p1', '-i', patch], cwd=dst, stdout=subprocess.PIPE, stderr=subprocess.STDOUT, text=True)
+  r = subprocess.run(['patch', '-p1', '--fuzz=3', '-i', patch], cwd=dst, stdout=subprocess.PIPE, stderr=subprocess.STDOUT, text=True)
   out['patch_applies'] = r.returncode == 0
   if r.returncode != 0:
     out['patch_output'] = r.stdout[-400:]
